@@ -64,6 +64,37 @@ func init() {
 					}
 				}
 			}
+			// a second table that is dropped while the connections its regions share
+			// with the first table's regions are healthy: the regions that are gone
+			// are forgotten, the connections are not
+			g2 := &Gen{R: rng.New(rng.Derive(seed, 2020)), nonce: 700000}
+			if nreg := len(ts.Splits) + 1; g2.R.Chance(0.15) && nreg <= 4 {
+				name := "zz"
+				if ts.Name == name {
+					name = "zy"
+				}
+				t2 := TableSpec{Name: name, First: g2.R.Intn(p.Layout.Servers), Splits: g2.Splits(g2.R.Range(0, 1), 3)}
+				for range len(t2.Splits) + 1 {
+					t2.IDs = append(t2.IDs, 0)
+				}
+				p.Layout.Tables = append(p.Layout.Tables, t2)
+				ts = &p.Layout.Tables[0]
+				on2 := func() Op { return g2.SingleOp(name, g2.KeyNear(t2.Splits, 3), []string{"get", "put"}) }
+				for t := range p.Tasks {
+					if g2.R.Chance(0.5) {
+						p.Tasks[t].Ops = append([]Op{on2()}, p.Tasks[t].Ops...)
+					}
+					if g2.R.Chance(0.5) {
+						p.Tasks[t].Ops = append(p.Tasks[t].Ops, on2())
+					}
+				}
+				late := []Op{on2(), {Kind: "sleep", MS: g2.R.Range(1, 300)}, on2(), on2()}
+				for i, n := 0, g2.R.Range(1, 4); i < n; i++ {
+					late = append(late, g2.SingleOp(ts.Name, g2.KeyNear(ts.Splits, 3), kinds))
+				}
+				p.Tasks = append(p.Tasks, Task{Ops: late})
+				p.Faults = append(p.Faults, &Fault{On: "exec", N: g2.R.Range(2, 14), Act: "drop", Table: name})
+			}
 			return p
 		},
 		After: func(w *World, reason string) {
